@@ -618,3 +618,98 @@ def _sosfiltfilt(fr, args, kwargs):
     ax = _norm_axis(v["axis"], x.ndim)
     return _routine("butter_sosfiltfilt", x, [b["N"], b["Wn"], b["btype"], b["analog"], b["fs"], ax, v["padtype"], v["padlen"]],
                     tuple(x.shape))
+
+
+# ----------------------------------------------------------------------------------
+# spectral estimation kernels (uninterpreted; DESIGN A6)
+# ----------------------------------------------------------------------------------
+
+def _lead_broadcast(x, y):
+    """broadcast the leading axes (all but the last) of two arrays; returns (axes, reader_x, reader_y)"""
+    xa = Arr(x.axes[:-1], lambda idx: 0, "int")
+    ya = Arr(y.axes[:-1], lambda idx: 0, "int")
+    axes = N.broadcast_axes([xa, ya])
+    nd = len(axes)
+
+    def lead_idx(a, idx):
+        o = []
+        k0 = nd - (a.ndim - 1)
+        for k in range(a.ndim - 1):
+            ax = a.axes[k]
+            o.append((0,) if N._is_one(ax) else idx[k0 + k])
+        return tuple(o)
+    return axes, lambda idx: lead_idx(x, idx), lambda idx: lead_idx(y, idx)
+
+
+@model("scipy.signal.csd")
+def _csd(fr, args, kwargs):
+    """Welch cross spectral density of conj(X) Y along the last axis, broadcasting over the leading axes;
+    one-sided grid k*fs/nfft, k = 0..nfft//2.  Values are an uninterpreted function of the two series and of every
+    estimation parameter."""
+    v = _bind("csd", args, kwargs, ["x", "y", "fs", "window", "nperseg", "noverlap", "nfft", "detrend", "return_onesided",
+                                    "scaling", "axis", "average"],
+              {"fs": sym.toF(1.0), "window": "hann", "nperseg": None, "noverlap": None, "nfft": None, "detrend": "constant",
+               "return_onesided": True, "scaling": "density", "axis": -1, "average": "mean"})
+    x, y = N.asarray(v["x"]), N.asarray(v["y"])
+    if v["axis"] != -1 or v["return_onesided"] is not True:
+        raise Unsupported("csd with axis/return_onesided other than the defaults")
+    nper = v["nperseg"] if v["nperseg"] is not None else 256
+    nfft = v["nfft"] if v["nfft"] is not None else nper
+    if not is_int(nfft):
+        nfft = sym.to_int(nfft)
+    nf = sym.add(sym.floordiv(nfft, 2), 1)
+    fs = sym.toF(v["fs"])
+    axes, rx, ry = _lead_broadcast(x, y)
+    encs = [_enc(fs), _enc(v["window"]), _enc(nper), _enc(v["noverlap"]), _enc(nfft), _enc(v["detrend"]),
+            _enc(v["scaling"]), _enc(v["average"])]
+    sorts = [N.SerSort, N.SerSort] + [e.sort() for e in encs] + [z3.IntSort()]
+    f_re = sym.ufun("scipy.csd.re", *sorts, z3.RealSort())
+    f_im = sym.ufun("scipy.csd.im", *sorts, z3.RealSort())
+
+    def cell(idx):
+        sx = N.last_axis_series(x, rx(idx[:-1]))
+        sy = N.last_axis_series(y, ry(idx[:-1]))
+        k = zi(idx[-1][0])
+        return C(False, f_re(sx, sy, *encs, k), f_im(sx, sy, *encs, k))
+    P = Arr(tuple(axes) + ((nf,),), cell, "complex")
+    c = cur()
+    c.numpy_mode += 1
+    try:
+        step = sym.div(fs, nfft)
+    finally:
+        c.numpy_mode -= 1
+    freq = Arr(((nf,),), lambda idx: sym.mul(idx[0][0], step), "float")
+    return (freq, P)
+
+
+def _fft_like(name, out_len, kind):
+    def m(fr, args, kwargs):
+        if kwargs:
+            raise Unsupported(f"{name} with keyword arguments")
+        a = N.asarray(args[0])
+        n_in = a.extent(a.ndim - 1)
+        n_out = out_len(n_in)
+        f_re = sym.ufun(f"numpy.fft.{name}.re", N.SerSort, z3.IntSort(), z3.RealSort())
+        f_im = sym.ufun(f"numpy.fft.{name}.im", N.SerSort, z3.IntSort(), z3.RealSort())
+
+        def cell(idx):
+            s = N.last_axis_series(a, idx[:-1])
+            k = zi(idx[-1][0])
+            if kind == "float":
+                return F(False, f_re(s, k))
+            return C(False, f_re(s, k), f_im(s, k))
+        return Arr(tuple(a.axes[:-1]) + ((n_out,),), cell, kind)
+    return m
+
+
+MODELS["numpy.fft.irfft"] = _fft_like("irfft", lambda n: sym.mul(2, sym.sub(n, 1)), "float")
+MODELS["numpy.fft.rfft"] = _fft_like("rfft", lambda n: sym.add(sym.floordiv(n, 2), 1), "complex")
+
+
+@model("scipy.signal.windows.exponential")
+def _exp_window(fr, args, kwargs):
+    v = _bind("exponential", args, kwargs, ["M", "center", "tau", "sym"], {"center": None, "tau": sym.toF(1.0), "sym": True})
+    M = v["M"]
+    encs = [_enc(v["center"]), _enc(v["tau"]), _enc(v["sym"]), _enc(M)]
+    f = sym.ufun("scipy.windows.exponential", *[e.sort() for e in encs], z3.IntSort(), z3.RealSort())
+    return Arr(((M,),), lambda idx: F(False, f(*encs, zi(idx[0][0]))), "float")
